@@ -347,6 +347,7 @@ def run(prog, rep, tier, cfg):
     roles(prog, rep, X, impls)
     # ---- error discipline: no Result produced in these crates is silently discarded
     X.no_dropped_results('K14', 'results-not-discarded', ['fil_actor_evm', 'fil_actors_evm_shared'], 'no Result of a call is discarded')
+    X.tolerated_failures('K15', 'tolerated-failures', ['fil_actor_evm', 'fil_actors_evm_shared'], 'tolerated failures are the reviewed ones')
 
 
 
